@@ -223,20 +223,21 @@ func cmdReplay(args []string) int {
 		}
 	}
 	root := verifRoot()
-	var idx map[string]replayCfg
-	if err := loadJSON(filepath.Join(root, "replay", "index.json"), &idx); err == nil {
-		if cfg, ok := idx[id]; ok {
+	if cfgs := loadReplayIndex(root)[id]; len(cfgs) > 0 {
+		n := 0
+		for _, cfg := range cfgs {
 			confirmed, output := runReplayHarness(root, id, cfg, filepath.Join(root, "replay", cfg.Dir, "battery.json"))
 			fmt.Println(output)
-			if len(confirmed) > 0 {
-				fmt.Printf("replay: %d failing input(s) confirmed on the real code\n", len(confirmed))
-				rc = 1
-			} else {
-				fmt.Println("replay: no failing input confirmed on the current tree")
-			}
-		} else {
-			fmt.Println("replay: no replay harness for", id, "(the failed obligation and the solver output are in the replay file)")
+			n += len(confirmed)
 		}
+		if n > 0 {
+			fmt.Printf("replay: %d failing input(s) confirmed on the real code\n", n)
+			rc = 1
+		} else {
+			fmt.Println("replay: no failing input confirmed on the current tree")
+		}
+	} else {
+		fmt.Println("replay: no replay harness for", id, "(the failed obligation and the solver output are in the replay file)")
 	}
 	return rc
 }
